@@ -78,6 +78,9 @@ type c08Scenario struct {
 	// the connections are SCTP associations (in-memory backend); consecutive messages
 	// arrive on different streams
 	sctp bool
+	// while the held handler blocks, the application registers a handler on the shared mux
+	// (as every sm.Client.Dial does) and only then do the other connections' messages arrive
+	regWhileHeld bool
 }
 
 // c08Body: body size of message s on connection i (below, at and above the 1 KiB pooled read buffer)
@@ -207,7 +210,27 @@ func runC08(c *ev.Case, ctx *lib.Ctx, sc c08Scenario) {
 			streams[i] = append(streams[i], c08Msg(i, uint32(s), c08Body(i, s), sc.mux)...)
 		}
 	}
-	switch sc.pattern {
+	regDone := make(chan struct{})
+	if sc.regWhileHeld {
+		conns[sc.holdConn].Feed(streams[sc.holdConn])
+		synctest.Wait()
+		go func() {
+			mux.Handle("GTR", hf)
+			close(regDone)
+		}()
+		for i := range conns {
+			if i != sc.holdConn {
+				conns[i].Feed(streams[i])
+			}
+		}
+	} else {
+		close(regDone)
+	}
+	pattern := sc.pattern
+	if sc.regWhileHeld {
+		pattern = -1
+	}
+	switch pattern {
 	case 0:
 		for i := range conns {
 			conns[i].Feed(streams[i])
@@ -270,6 +293,12 @@ func runC08(c *ev.Case, ctx *lib.Ctx, sc c08Scenario) {
 		c.Event("blocked_handler_scenarios", 1)
 		close(release)
 		synctest.Wait()
+		select {
+		case <-regDone:
+		default:
+			c.Fail(sig("registration-blocked"), nil, nil, "a handler registration started while a handler was blocked has not returned after the handler was released (%+v)", sc)
+			fail = true
+		}
 	} else if sc.handler == 1 {
 		time.Sleep(time.Second) // virtual: lets every sleeping handler finish
 		synctest.Wait()
@@ -422,13 +451,20 @@ func TestC08(t *testing.T) {
 		if r.IntN(3) == 0 {
 			sc.prelude = 1 + r.IntN(3)
 		}
+		if sc.mux && sc.handler == 2 && sc.K > 1 && r.IntN(2) == 0 {
+			sc.regWhileHeld = true
+		}
 		if r.IntN(6) == 0 {
+			sc.regWhileHeld = false
 			sc.sctp, sc.dialled, sc.prelude = true, true, 0
 			if sc.pattern == 1 {
 				sc.pattern = 0
 			}
 		}
 		c.Class("K=%d/dialled=%v/pattern=%d/handler=%d/mux=%v/long=%v/prelude=%d/sctp=%v", sc.K, sc.dialled, sc.pattern, sc.handler, sc.mux, long, sc.prelude, sc.sctp)
+		if sc.regWhileHeld {
+			c.Class("registration-while-a-handler-is-blocked/dialled=%v", sc.dialled)
+		}
 		leak := runBubbleWD(t, rec, c, 60*time.Second, func() { runC08(c, ctx, sc) })
 		if leak != "" && !c.Failed() {
 			c.Fail(ev.Sig{"op": "bubble-leak"}, nil, nil, "goroutines left blocked after the scenario ended: %s (%+v)", leak, sc)
